@@ -14,6 +14,8 @@ CHECKS = {
     "C02": _lazy("resolve", "run_c02"),
     "C03": _lazy("resolve", "run_c03"),
     "C06": _lazy("resolve", "run_c06"),
+    "C07": _lazy("writer", "run_c07"),
+    "C08": _lazy("writer", "run_c08"),
     "C09": _lazy("resolve", "run_c09"),
     "C10": _lazy("resolve", "run_c10"),
     "C11": _lazy("resolve", "run_c11"),
